@@ -113,12 +113,17 @@ def run_views(prop: str, repo_root: str, overrides, tier: str):
     clear_cache()
     repo_b = Repo(repo_root, overrides=overrides, view="canonical")
     ctx_b = Ctx(prop, repo_b, tier)
+    from . import common as _common
+
+    _common.FLATTEN_RETURNS = os.environ.get("SA_FLATTEN_CANON_RETURNS") == "1"
     try:
         mod.run(ctx_b)
     except Exception:
+        _common.FLATTEN_RETURNS = False
         if err_a is not None:
             raise err_a
         return repo, ctx, mod
+    _common.FLATTEN_RETURNS = False
     if err_a is not None:
         # the live view could not even be analysed; the canonical view stands on its own
         ctx_b.notes.append(f"live view not analysable ({type(err_a).__name__}: {err_a}); verdict taken from the canonical view")
@@ -139,41 +144,48 @@ def run_views(prop: str, repo_root: str, overrides, tier: str):
         ga = groups_a[g]
         gb = groups_b.get(g, [])
         a_ok = all(x.status in (OK, INFO) for x in ga)
-        b_ok = bool(gb) and all(x.status in (OK, INFO) for x in gb) and any(x.status == OK for x in gb)
-        if not a_ok and b_ok:
-            for x in gb:
-                x.detail = (x.detail + " [discharged on the canonical view]").strip()
-            merged.extend(gb)
-            used_b += 1
-        elif not a_ok and gb and not any(x.status == "violation" for x in ga) and any(x.status == "violation" for x in gb):
-            # the rule could not read the function as written but decides its normal form (an equivalent program): decisive
-            for x in gb:
-                if x.status == "violation":
-                    x.detail = (x.detail + " [decided on the canonical view; the function as written was not recognised]").strip()
-            merged.extend(gb)
-            used_b += 1
-        elif not a_ok and gb and {x.key for x in ga} == {x.key for x in gb}:
-            # same obligations in both views: each is an independent necessary condition about one function, and the two views
-            # are the same program, so an obligation is discharged if either view discharges it
-            by_b = {}
-            for x in gb:
-                by_b.setdefault(x.key, []).append(x)
-            mixed, all_ok = [], True
-            for x in ga:
-                if x.status in (OK, INFO):
-                    mixed.append(x)
-                elif all(y.status in (OK, INFO) for y in by_b[x.key]):
-                    for y in by_b[x.key]:
-                        y.detail = (y.detail + " [discharged on the canonical view]").strip()
-                    mixed.extend(by_b[x.key])
-                else:
-                    mixed.append(x)
-                    all_ok = False
-            merged.extend(mixed)
-            if all_ok:
-                used_b += 1
-        else:
+        if a_ok or not gb:
             merged.extend(ga)
+            continue
+        # The two views are the same program, and every obligation is an independent necessary condition about one construct:
+        # an obligation is discharged if either view discharges *that obligation* (same rule and construct key). A canonical
+        # group that merely stopped early (fewer obligations, all of them fine) discharges nothing it did not look at.
+        by_b = {}
+        for x in gb:
+            by_b.setdefault(x.key, []).append(x)
+        keys_a = {x.key for x in ga}
+        out, took = [], False
+        for x in ga:
+            if x.status in (OK, INFO):
+                out.append(x)
+            elif x.key in by_b and all(y.status in (OK, INFO) for y in by_b[x.key]) and any(y.status == OK for y in by_b[x.key]):
+                for y in by_b[x.key]:
+                    y.detail = (y.detail + " [discharged on the canonical view]").strip()
+                out.extend(by_b[x.key])
+                took = True
+            elif x.status != "violation" and x.key in by_b and any(y.status == "violation" for y in by_b[x.key]):
+                for y in by_b[x.key]:
+                    if y.status == "violation":
+                        y.detail = (y.detail + " [decided on the canonical view; the function as written was not recognised]").strip()
+                out.extend(by_b[x.key])
+                took = True
+            else:
+                out.append(x)
+        # obligations only the canonical view reached inside this group (the live view gave up earlier on this function)
+        live_gave_up = any(x.status not in (OK, INFO, "violation") for x in ga)
+        if live_gave_up:
+            for k, ys in by_b.items():
+                if k not in keys_a:
+                    for y in ys:
+                        y.detail = (y.detail + " [canonical view only]").strip()
+                    out.extend(ys)
+                    took = True
+            # the live "could not read this function" markers are answered if the canonical view read it completely
+            if all(y.status in (OK, INFO, "violation") for y in gb):
+                out = [x for x in out if x.status in (OK, INFO, "violation")]
+        merged.extend(out)
+        if took:
+            used_b += 1
     # groups only the canonical view produced (the live view stopped before reaching them, e.g. a fold that left the fragment
     # emitted one "undecided" instead of the per-gate obligations): they are verdicts about an equivalent program and count
     for g, gb in groups_b.items():
